@@ -130,7 +130,11 @@ Section Handle.
     if (mcode r =? GET) || (mcode r =? DELETE) then (e, Out (app (mtok r) r), [r])
     else
     match (if isb1 then mb1 r else mb2 r) with
-    | None => (e, Out (app (mtok r) r), [r])
+    | None =>
+      (* repaired: a POST/PUT that asks for block NUM > 0 of a response (Block2, no Block1) reaches
+         this point only when that response is no longer held: error *)
+      if isb1 && match mb2 r with Some b2 => negb (bnum b2 =? 0) | None => false end then (e, Fail, [])
+      else (e, Out (app (mtok r) r), [r])
     | Some b =>
       let sent := get_sent_request e (mtok r) in
       match (if isb1 then false else match sent with None => true | Some _ => false end) with
